@@ -26,7 +26,7 @@ static const profile_t PROFILES[] = {
     { "C16", 2, G_MSG | G_STASH | G_ARM | G_LIFE | G_BECOME | G_SUB | G_PRIO | G_SRC | G_READY, RL_BASE | R_PS | R_SH | R_HD,     3, "01000100" "07000100" "07010100" "04000000", 1, 0, 1,
       (1u << A_STASH) | (1u << A_UNSTASH), (1u << CB_EVT), (1u << P_T), (1u << T_T), (1u << K_FD), 1 },
     { "C17", 2, G_MSG | G_BECOME | G_ARM | G_LIFE | G_STASH,                                 RL_BASE | R_PS | R_HD | R_SH,       2, "01000100" "07000100" "07010100" "04000000", 1, 0, 1,
-      (1u << A_BECOME) | (1u << A_UNBECOME) | (1u << A_STASH), (1u << CB_EVT), 0, 0 },
+      (1u << A_BECOME) | (1u << A_UNBECOME) | (1u << A_STASH) | (1u << A_STOP), (1u << CB_EVT), 0, 0 },
     { "C19", 2, G_REG | G_LIFE | G_SUB | G_QUIT | G_TICK | G_ENV | G_PILL | G_ARM,           RL_BASE | R_PS | R_SY | R_EV,       1, "01000100", 1 | 4, 1, 1,
       (1u << A_DEREG) | (1u << A_STOP) | (1u << A_PAUSE), (1u << CB_START) | (1u << CB_STOP) | (1u << CB_EVT), (1u << P_CTX_STARTED) | (1u << P_CTX_STOPPED) | (1u << P_CTX_TICK) | (1u << P_MOD_STARTED) | (1u << P_MOD_STOPPED), 0 },
     { "C09", 1, G_SRC | G_LIFE | G_ILLEGAL | G_BADPARAM,                                      RL_BASE | R_SR,                     0, "01000100" "07000100", 1, 0, 1,
@@ -41,16 +41,22 @@ static const profile_t PROFILES[] = {
       0, 0, 0, 0, (1u << K_SGN) | (1u << K_PATH) | (1u << K_PID), 1 | 4, 2 },
     { "C13", 1, G_MSG | G_SUB | G_PRIO | G_BATCH | G_ENV | G_LIFE | G_SRC | G_READY,         RL_BASE | R_PS | R_FIFO | R_BA,     0, "01000100" "07000100" "07010100" "04000000", 1, 0, 1,
       0, 0, (1u << P_T) | (1u << P_U), (1u << T_T) | (1u << T_U), (1u << K_FD), 1 },
+    { "C13B", 1, G_MSG | G_SUB | G_PRIO | G_BATCH | G_ENV | G_BUCKET,                          RL_BASE | R_PS | R_FIFO | R_BA | R_TB, 0, "01000100" "07000100" "07010100" "04000000", 1, 0, 1,
+      0, 0, (1u << P_T), (1u << T_T), 0, 0 },
     { "C18", 2, G_MSG | G_SUB | G_BUCKET | G_ENV | G_BECOME | G_PILL | G_SRC,                RL_BASE | R_PS | R_TB | R_SR,       0, "01000100" "07000100" "07010100" "04000000", 1, 0, 1,
       0, 0, (1u << P_T), (1u << T_T), (1u << K_TMR), 1 },
     { "C15N", 2, G_LIFE | G_ARM | G_QUIT,                                                    RL_BASE | R_NM,                     2, "01000100" "07000103" "07010100", 1, 0, 1,
       (1u << A_CTXCALL) | (1u << A_START) | (1u << A_STOP) | (1u << A_DEREG), 0xf, 0, 0 },
     { "C20", 2, G_SRC | G_READY | G_ENV | G_LIFE | G_PILL | G_ARM | G_REFS | G_REG | G_REREG,         RL_BASE | R_SR | R_FD,              1, "01000100" "07000100" "07010100" "04000000", 1, 1, 1,
       (1u << A_DEREG) | (1u << A_RETAIN) | (1u << A_STOP), (1u << CB_EVT) | (1u << CB_START), 0, 0, (1u << K_FD) | (1u << K_TMR), 0x3f | 0x100 | 0x400, 2 },
+    { "C20T", 1, G_LIFE | G_SUB | G_QUIT | G_TICK | G_ARM | G_MSG,                                RL_BASE | R_PS | R_SY | R_FD | R_EV, 1, "01000100" "07000100" "07010100" "04000000", 1, 0, 1,
+      (1u << A_TICK) | (1u << A_STOP), (1u << CB_EVT) | (1u << CB_STOP), (1u << P_CTX_STOPPED) | (1u << P_CTX_TICK), 0 },
     { "C04", 2, G_LIFE | G_REG | G_MSG | G_SUB | G_BCAST | G_AUTOFREE | G_PILL | G_ARM | G_QUIT | G_STASH | G_BECOME | G_SRC | G_READY | G_ENV | G_REFS | G_FAULT | G_BATCH,
       RL_BASE | R_PS | R_FREE | R_SH | R_HD | R_SR | R_PILL | R_EV, 2, "01000100" "07000100" "07010100" "04000000", 1, 1, 1,
       (1u << A_STOP) | (1u << A_DEREG) | (1u << A_PAUSE) | (1u << A_UNSUB) | (1u << A_TELL) | (1u << A_PUB) | (1u << A_STASH) | (1u << A_UNSTASH) | (1u << A_RETAIN) | (1u << A_QUIT),
       0xf, (1u << P_T) | (1u << P_DOT), (1u << T_T), (1u << K_FD) | (1u << K_TMR), 0x7 },
+    { "C04F", 2, G_MSG | G_PILL | G_ARM | G_QUIT | G_LIFE,                      RL_BASE | R_PS | R_FREE | R_PILL | R_EV, 1, "01000100" "07000100" "07010100" "04000000", 1, 0, 1,
+      (1u << A_DEREG) | (1u << A_STOP), (1u << CB_EVT), 0, 0 },
     { "SMOKE", 2, G_LIFE | G_REG | G_MSG | G_QUIT,                                          RL_BASE | R_EV | R_PS,              0, "01000100", 1, 0, 1, 0, 0, 0, 0 },
 };
 #define NPROFILES ((int)(sizeof PROFILES / sizeof *PROFILES))
